@@ -376,6 +376,10 @@ func (s *Sim) root() {
 		if s.stop || s.harnessErr != "" {
 			break
 		}
+		if c := s.in.Cfg.ClockCreepNs; c > 0 {
+			simSleep(time.Duration(c))
+			quiesce()
+		}
 		s.sched.step++
 		if s.sched.step > s.sched.maxSteps {
 			if len(s.in.Cfg.FineSites) > 0 {
